@@ -72,6 +72,8 @@ def configs(tier):
                 c = dict(entry=entry, graph=g, I0=I0, R0=R0, full=True, tags=[g] + (['R0'] if R0 else []))
                 sim_bounds(entry, c, tier)
                 out.append(c)
+                if entry in ('fast_SIR', 'fast_nonMarkov_SIR') and g in ('K2', 'P3') and not R0 and len(I0) == 1:
+                    out.append(dict(c, tmax='sym', tags=c['tags'] + ['tmax:sym']))
                 if entry in ('Gillespie_SIR', 'fast_SIR', 'Gillespie_SIS', 'fast_SIS') and g == 'P3' and not R0 and len(I0) == 1:
                     c2 = dict(c, weights='both', wstub='abstract', tags=c['tags'] + ['w:both'])
                     out.append(c2)
